@@ -125,7 +125,7 @@ def run(property_id, tier, seed):
     coverage = {
         "evaluations": total("runs"),
         "distinct_nontrivial": len(nontrivial),
-        "rule": "one evaluation = one seeded history (3-40 operations over <= 9 interdependent file slots) executed in its "
+        "rule": "one evaluation = one seeded history (3-40 operations over <= 10 interdependent file slots) executed in its "
                 "own forked process against the real CompilerSession and a real scratch directory; distinct = hash of the "
                 "abstracted history (operation kind, slot, content variant / query); non-trivial = at least one edit or "
                 "disk fault strictly between two queries",
@@ -164,6 +164,11 @@ def run(property_id, tier, seed):
         "key spaces of arena ids are masked (ordinal of first appearance per line); slots within a key space are compared exactly",
         "a panic that a fresh session reproduces identically is a front-end totality matter (C10) and is counted, not judged",
     ]
+    stuck = [name for name in ("memo_evicted_then_rematerialised", "answer_changed_after_edits",
+                               "companion_appeared_after_being_probed_absent", "overlay_reverted_to_disk",
+                               "handle_query_with_stale_handle") if probes.get(name, 0) == 0]
+    if stuck and property_id == "C15":
+        raise HarnessError(f"reach probes stuck at zero: {stuck}")
     if inconclusive:
         raise HarnessError(f"{len(inconclusive)} run(s) timed out once and finished on re-execution: wall-clock safety net too tight")
     return coverage, assumptions, violations, known_lines, wall
